@@ -153,6 +153,8 @@ class Properties(Container):
 
             identity = self.identity()
             if identity:
+                # Keep the comment on one line
+                identity = " ".join(str(identity).splitlines())
                 out[-1] += f" {identity}"
 
         out.append(f"{name} = {namespace}{self.__class__.__name__}()")
@@ -216,7 +218,7 @@ class Properties(Container):
                     default = ""
 
                 string.append(
-                    f"{indent0}{self.__class__.__name_}: "
+                    f"{indent0}{self.__class__.__name__}: "
                     f"{self.identity(default=default)}"
                 )
             else:
